@@ -13,6 +13,9 @@ def plan(ctx):
                           desc="list_names yields exactly the NAME token values in order after resetting position/line/depth (text and stream independent)"))
     obs.append(Obligation("twice", "xh", "c18", "names_twice", timeout=T, bounds="0..4 names, first generator consumed 0..4 items",
                           desc="an earlier (partially consumed) call does not change the next call on the same parser"))
+    obs.append(Obligation("api.cached_near_duplicates", "xh", "c18", "api_lookups_cached", timeout=T * 2,
+                          bounds="7 pairs of texts differing only in blank runs inside %names%; either order; first text parsed or evaluated (finite domain)",
+                          desc="with a parse cache, after a near-duplicate text: eval asks the host only for the names list_names reports for the text at hand"))
     obs.append(Obligation("interleaved", "xh", "c18", "names_interleaved", timeout=T, bounds="listing consumed 0..4 names, then one of 4 calls on a second parser (finite domain)",
                           desc="a partly consumed list_names() is not disturbed by calls on another SqParser"))
     obs.append(Obligation("retyping", "xh", "c18", "name_retyping", timeout=T, bounds="identifier text symbolic <= 3 chars or one of the 17 keywords",
